@@ -105,4 +105,37 @@ theorem length_pyInsert (l : List Nat) (p x : Nat) : (pyInsert l p x).length = l
   simp only [List.length_append, List.length_cons, List.length_take, List.length_drop]
   omega
 
+/-- what a track shows depends only on the objects it refers to -/
+theorem view_congr (heap heap' : List (HObs V)) (ids : List Nat) (dico : List (String × Nat))
+    (h : ∀ id ∈ ids, heap'[id]? = heap[id]?) :
+    view { heap := heap', ids := ids, dico := dico } = view { heap := heap, ids := ids, dico := dico } := by
+  unfold view
+  simp only [St.mk.injEq, true_and]
+  refine ⟨?_, ?_, ?_, ?_, ?_⟩ <;>
+    (apply List.map_congr_left; intro id hm; simp only [featsAt, coordAt, h id hm])
+
+
+theorem copyMemo_eq_copyEach : ∀ (ids : List Nat) (memo : List (Nat × Nat)) (heap : List (HObs V)), ids.Nodup →
+    (∀ id ∈ ids, memo.lookup id = none) → copyMemo ids memo heap = copyEach ids heap := by
+  intro ids
+  induction ids with
+  | nil => intro _ _ _ _; rfl
+  | cons id rest ih =>
+    intro memo heap hnd hm
+    obtain ⟨hni, hnd'⟩ := List.nodup_cons.mp hnd
+    simp only [copyMemo, copyEach, hm id (by simp)]
+    cases allocCopy heap id with
+    | none => rfl
+    | some r =>
+      obtain ⟨nid, h1⟩ := r
+      simp only
+      rw [ih _ _ hnd' ?_]
+      intro id' hm'
+      have hne : (id' == id) = false := by
+        simp only [beq_eq_false_iff_ne, ne_eq]
+        intro e; exact hni (e ▸ hm')
+      simp only [List.lookup_cons, hne]
+      exact hm id' (by simp [hm'])
+
+
 end TV.Features
